@@ -191,7 +191,8 @@ class extract_visitor(NodeVisitor):
                 else:
                     fh.add_name(AssignedName(h.name, np(h.body[0]), np(h), h.type))  # type: ignore[arg-type]
             if h.type:
-                self.visit(h.type)
+                # the exception class is evaluated when the exception arrives: it sees what the try body bound
+                fh = self.visit_in_flow(h.type, fh)
             handlers.append(self.visit_in_flow(h.body, fh))
 
         orelse = self.visit_in_flow(node.orelse,
@@ -200,7 +201,9 @@ class extract_visitor(NodeVisitor):
         self.flow = self.make_flow('join', [orelse] + handlers)
         self.flow.scope.flow = self.flow
         if hasattr(node, 'finalbody'):
-            self.visit_in_flow(node.finalbody, self.flow)
+            # keep the region the finally body ends in: its bindings reach what follows
+            self.flow = self.visit_in_flow(node.finalbody, self.flow)
+            self.flow.scope.flow = self.flow
 
     visit_Try = visit_TryExcept
 
